@@ -28,6 +28,26 @@ func runResultDefined(c *Ctx) {
 	info := p.TypesInfo
 	isValue := func(t types.Type) bool { return t != nil && NamedOf(t) == "value.Value" }
 	n := map[string]int{}
+	// function literals that are registered as native methods: arguments of Def(..)
+	registered := map[*ast.FuncLit]bool{}
+	c.Funcs("vm", func(fr *FuncRef) {
+		ast.Inspect(fr.Decl.Body, func(nd ast.Node) bool {
+			call, ok := nd.(*ast.CallExpr)
+			if !ok {
+				return true
+			}
+			if fn := Callee(info, call); fn == nil || fn.Name() != "Def" {
+				return true
+			}
+			for _, a := range call.Args {
+				if lit, ok := a.(*ast.FuncLit); ok {
+					registered[lit] = true
+				}
+			}
+			return true
+		})
+	})
+	c.Stats["registered_native_literals"] = len(registered)
 	c.Funcs("vm", func(fr *FuncRef) {
 		ast.Inspect(fr.Decl.Body, func(nd ast.Node) bool {
 			lit, ok := nd.(*ast.FuncLit)
@@ -38,6 +58,26 @@ func runResultDefined(c *Ctx) {
 			if !ok || sig.Results().Len() != 2 || !isValue(sig.Results().At(0).Type()) || !isValue(sig.Results().At(1).Type()) {
 				return true
 			}
+			// a literal `return value.Undefined, value.Undefined`: "no result, no error"
+			ast.Inspect(lit.Body, func(m ast.Node) bool {
+				if inner, ok := m.(*ast.FuncLit); ok && inner != lit {
+					return false
+				}
+				r, ok := m.(*ast.ReturnStmt)
+				if !ok || len(r.Results) != 2 {
+					return true
+				}
+				isUndef := func(e ast.Expr) bool {
+					sel, ok := ast.Unparen(e).(*ast.SelectorExpr)
+					return ok && sel.Sel.Name == "Undefined" && NamedOf(info.TypeOf(sel)) == "value.Value"
+				}
+				if isUndef(r.Results[0]) && isUndef(r.Results[1]) && registered[lit] {
+					name := FuncName(fr.Decl) + "/return-undefined"
+					n[name]++
+					c.Bad(name+"#"+itoa(n[name]), r.Pos(), "a native method defined in %s returns `value.Undefined` as its result together with no error: the VM-internal `undefined` escapes into the program (it is not nil: `x == nil` is false, it prints as `undefined`, and typed operations on it end in a Go panic)", FuncName(fr.Decl))
+				}
+				return true
+			})
 			// uninitialised Value locals of this literal
 			var vars []types.Object
 			ast.Inspect(lit.Body, func(m ast.Node) bool {
